@@ -298,6 +298,31 @@ pub fn es_h(alpha: &[u8], maxlen: usize) -> Family {
     Family::Tails { prefixes, alpha: vec![b'1'], max: 6 }
 }
 
+pub fn es_l(kmax: usize) -> Family {
+    let units: [u8; 4] = [b'a', b'A', b'1', b'*'];
+    let mut out = Vec::new();
+    for a in units {
+        for b in units {
+            for c in units {
+                if a == b || b == c {
+                    continue;
+                }
+                for ka in 1..=kmax {
+                    for kb in 1..=kmax {
+                        for kc in 1..=kmax {
+                            let mut v = vec![a; ka];
+                            v.extend(vec![b; kb]);
+                            v.extend(vec![c; kc]);
+                            out.push(v);
+                        }
+                    }
+                }
+            }
+        }
+    }
+    Family::list(out)
+}
+
 pub fn es_j(tier: Tier) -> Family {
     let mut prefixes: Vec<Vec<u8>> = Vec::new();
     for l in tier.pick(vec![250usize], vec![248usize, 249, 250, 251, 499, 500]) {
@@ -416,6 +441,10 @@ fn parts(tier: Tier) -> Vec<SPart> {
     // boundary, followed by a tail of 0..=48 characters of one class (walks the end of the data
     // across the capacity of the symbol in steps of 2/3, 1/2, 3/4 and 1 codeword)
     v.push(SPart { part: Part { name: "ES-J long runs + tails", family: es_j(tier), cfgs: gen::cfgs(&[ALL_MODES], &[d], &on, &off) }, strong: true });
+    // ES-L: three runs of base-set characters of different classes (lower case, upper case, digits,
+    // EDIFACT punctuation) with every combination of run lengths 1..=13: look-ahead rules of the
+    // planner that depend on the length of the coming run (e.g. "7 digits ahead") live here
+    v.push(SPart { part: Part { name: "ES-L three runs, lengths 1..13", family: es_l(13), cfgs: gen::cfgs(&[ALL_MODES], &[d], &on, &off) }, strong: true });
     // ES-K: every symbol as a single-symbol list at its capacity boundaries (strong for symbols of
     // up to 204 codewords, weak oracle beyond)
     for si in 0..48 {
